@@ -487,6 +487,91 @@ Fixpoint serve (rules : list rule) (i : nat) (p : bytes) : outcome :=
   end.
 End Dispatch.
 
+(* ================= the directive's setup: fastcgiParse / fastcgiPreset ================= *)
+(* `fastcgi <path> <upstream> [preset] { ... }`: the rule starts from the directive line, the preset
+   (if named) is applied FIRST, then the block's sub-directives in the order written. *)
+Inductive item :=
+| IExt (v : bytes) | ISplit (v : bytes) | IIndex (l : list bytes) | IExcept (l : list bytes)
+| IEnv (k v : bytes) | IRoot (v : bytes)
+| IOther.                                 (* upstream / timeouts: no effect on the fields modelled *)
+Record rcfg := { c_path : bytes; c_preset : option bytes; c_items : list item }.
+
+(* fastcgiPreset: the presets the code knows *)
+Definition preset (name : bytes) (r : rule) : option rule :=
+  if beq name (bs "php") then
+    Some {| r_path := r_path r; r_ext := bs ".php"; r_split := bs ".php"; r_index := [bs "index.php"];
+            r_except := r_except r; r_env := r_env r; r_root := r_root r |}
+  else None.
+
+Definition apply_item (r : rule) (it : item) : rule :=
+  match it with
+  | IExt v => {| r_path := r_path r; r_ext := v; r_split := r_split r; r_index := r_index r;
+                 r_except := r_except r; r_env := r_env r; r_root := r_root r |}
+  | ISplit v => {| r_path := r_path r; r_ext := r_ext r; r_split := v; r_index := r_index r;
+                   r_except := r_except r; r_env := r_env r; r_root := r_root r |}
+  | IIndex l => {| r_path := r_path r; r_ext := r_ext r; r_split := r_split r; r_index := l;
+                   r_except := r_except r; r_env := r_env r; r_root := r_root r |}
+  | IExcept l => {| r_path := r_path r; r_ext := r_ext r; r_split := r_split r; r_index := r_index r;
+                    r_except := l; r_env := r_env r; r_root := r_root r |}
+  | IEnv k v => {| r_path := r_path r; r_ext := r_ext r; r_split := r_split r; r_index := r_index r;
+                   r_except := r_except r; r_env := r_env r ++ [(k, v)]; r_root := r_root r |}
+  | IRoot v => {| r_path := r_path r; r_ext := r_ext r; r_split := r_split r; r_index := r_index r;
+                  r_except := r_except r; r_env := r_env r; r_root := v |}
+  | IOther => r
+  end.
+
+Definition rule0 (absroot path : bytes) : rule :=
+  {| r_path := path; r_ext := []; r_split := []; r_index := []; r_except := []; r_env := []; r_root := absroot |}.
+
+(* one directive occurrence; None = setup error (unknown preset name) *)
+Definition parse_rule (absroot : bytes) (c : rcfg) : option rule :=
+  let r0 := rule0 absroot (c_path c) in
+  match c_preset c with
+  | None => Some (fold_left apply_item (c_items c) r0)
+  | Some name =>
+      match preset name r0 with
+      | Some r1 => Some (fold_left apply_item (c_items c) r1)
+      | None => None
+      end
+  end.
+(* the loop over the directive's occurrences returns at the first error *)
+Fixpoint parse_rules (absroot : bytes) (cs : list rcfg) : option (list rule) :=
+  match cs with
+  | [] => Some []
+  | c :: t => match parse_rule absroot c with
+              | Some r => match parse_rules absroot t with Some rs => Some (r :: rs) | None => None end
+              | None => None
+              end
+  end.
+
+(* what the configuration SAYS (the spec side, written without the parser's state threading):
+   a setting given in the block wins over the preset's value; the last one given wins; `env`
+   entries accumulate in order; without block setting and without preset the field is empty *)
+Fixpoint last_of {A} (f : item -> option A) (l : list item) (d : A) : A :=
+  match l with
+  | [] => d
+  | it :: t => last_of f t (match f it with Some v => v | None => d end)
+  end.
+Definition preset_known (c : rcfg) : bool :=
+  match c_preset c with None => true | Some n => beq n (bs "php") end.
+Definition is_php (c : rcfg) : bool :=
+  match c_preset c with Some n => beq n (bs "php") | None => false end.
+Definition eff_rule (absroot : bytes) (c : rcfg) : rule :=
+  let its := c_items c in
+  {| r_path := c_path c;
+     r_ext := last_of (fun it => match it with IExt v => Some v | _ => None end) its (if is_php c then bs ".php" else []);
+     r_split := last_of (fun it => match it with ISplit v => Some v | _ => None end) its (if is_php c then bs ".php" else []);
+     r_index := last_of (fun it => match it with IIndex l => Some l | _ => None end) its (if is_php c then [bs "index.php"] else []);
+     r_except := last_of (fun it => match it with IExcept l => Some l | _ => None end) its [];
+     r_env := flat_map (fun it => match it with IEnv k v => [(k, v)] | _ => [] end) its;
+     r_root := last_of (fun it => match it with IRoot v => Some v | _ => None end) its absroot |}.
+
+Definition rule_beq (a b : rule) : bool :=
+  beq (r_path a) (r_path b) && beq (r_ext a) (r_ext b) && beq (r_split a) (r_split b) &&
+  list_beq beq (r_index a) (r_index b) && list_beq beq (r_except a) (r_except b) &&
+  list_beq (fun x y => beq (fst x) (fst y) && beq (snd x) (snd y)) (r_env a) (r_env b) &&
+  beq (r_root a) (r_root b).
+
 (* ================= buildEnv ================= *)
 
 Record request := {
@@ -756,6 +841,7 @@ Inductive sobs :=
 | SNext
 | SStatus (code : N)                     (* returned without contacting a responder *)
 | SPanic
+| SSetupError                            (* the directive's setup refused the configuration *)
 | SDispatched (wire : list seg)          (* raw bytes the responder received *)
               (ret : N) (logerr : option bytes)   (* ServeHTTP's return: status, LogError text *)
               (status : N) (hdrs : list (bytes * list bytes)) (body : list seg).
@@ -766,8 +852,17 @@ Inductive case :=
          (obs_data : list seg) (obs_err : N) (obs_stderr : list seg)
          (obs_reads : list N)               (* n of every Read call made *)
 | CChild (checks : list (bytes * list seg * list seg))    (* label, expected, observed *)
-| CServe (cs : bool) (sv : server) (rules : list rule) (stat_tbl open_tbl : list (bytes * bool))
-         (q : request) (qbody : list seg) (rs : rscript) (obs : sobs).
+| CServe (cs : bool) (sv : server)
+         (absroot : bytes) (cfgs : list rcfg)   (* the site root and the fastcgi directives as written *)
+         (rules : list rule)                    (* the rules the real setup produced from them *)
+         (stat_tbl open_tbl : list (bytes * bool))
+         (q : request) (qbody : list seg) (rs : rscript) (obs : sobs)
+(* several responses being read at the same time: reader i reads stream i; the schedule says
+   which reader makes the next Read call and with what buffer size *)
+| COverlap (streams : list (list (N * list seg * N) * list seg)) (sched : list (N * N))
+           (obs : list (list seg * N * list seg * list N))   (* per reader: delivered, error, stderr, n of every Read *)
+(* cases whose runs overlapped in time (request i+1 was served completely during a body write of request i) *)
+| CTogether (l : list case).
 
 Definition exp_recs (l : list (N * list seg * N)) : list (N * bytes * N) :=
   map (fun r => (fst (fst r), expand (snd (fst r)), snd r)) l.
@@ -881,7 +976,7 @@ Definition env_spec (cs : bool) (sv : server) (r : rule) (q : request) (f : byte
   (if (0 <=? q_cl q)%Z && sends_body (q_method q) then beq (g "CONTENT_LENGTH") (dec bodylen) else true).
 
 Definition sobs_class (o : sobs) : N :=
-  match o with SNext => 0 | SStatus _ => 1 | SPanic => 2 | SDispatched _ _ _ _ _ _ => 3 end.
+  match o with SNext => 0 | SStatus _ => 1 | SPanic => 2 | SDispatched _ _ _ _ _ _ => 3 | SSetupError => 4 end.
 
 Definition no_rule : rule :=
   {| r_path := []; r_ext := []; r_split := []; r_index := []; r_except := []; r_env := []; r_root := [] |}.
@@ -955,6 +1050,70 @@ Definition judge_demux (recs0 : list (N * list seg * N)) (tail0 : list seg) (siz
       (Nat.leb BUFIO_EMPTY_READS (length (filter empty_out pre)) || bufio_ok otrace)
     else true in
   verdict agree spec.
+
+(* ================= several streamReaders at once ================= *)
+(* every Read call allocates its own record, so the readers of different responses share nothing:
+   the state of the whole is the list of the readers' states *)
+Record rstate := { rd_s : sreader; rd_acc : list bytes (* reversed *); rd_err : option rerr;
+                   rd_trace : list (nat * nat * option rerr) (* reversed *) }.
+Definition rd_init (conn : bytes) : rstate := {| rd_s := sr_init conn; rd_acc := []; rd_err := None; rd_trace := [] |}.
+(* one Read call of a reader (a reader that has returned an error is not read again) *)
+Definition rd_step (r : rstate) (m : nat) : res rstate :=
+  match rd_err r with
+  | Some _ => Ok r
+  | None =>
+    do x <- sr_read (rd_s r) m;
+    let '(d, e, s') := x in
+    Ok {| rd_s := s'; rd_acc := d :: rd_acc r; rd_err := e; rd_trace := (m, length d, e) :: rd_trace r |}
+  end.
+Fixpoint rd_run (r : rstate) (sizes : list nat) : res rstate :=
+  match sizes with [] => Ok r | m :: t => do r' <- rd_step r m; rd_run r' t end.
+Fixpoint upd_nth (i : nat) (f : rstate -> res rstate) (l : list rstate) : res (list rstate) :=
+  match l, i with
+  | [], _ => Ok []
+  | r :: t, O => do r' <- f r; Ok (r' :: t)
+  | r :: t, S j => do t' <- upd_nth j f t; Ok (r :: t')
+  end.
+Fixpoint run_sched (rs : list rstate) (sched : list (nat * nat)) : res (list rstate) :=
+  match sched with
+  | [] => Ok rs
+  | (i, m) :: t => do rs' <- upd_nth i (fun r => rd_step r m) rs; run_sched rs' t
+  end.
+Definition sizes_of (i : nat) (sched : list (nat * nat)) : list nat :=
+  map snd (filter (fun x => Nat.eqb (fst x) i) sched).
+Definition rd_data (r : rstate) : bytes := concat (rev (rd_acc r)).
+
+Definition wire_of (st : list (N * list seg * N) * list seg) : bytes :=
+  concat (map enc_rec (exp_recs (fst st))) ++ expand (snd st).
+
+Fixpoint all2 {A B} (f : A -> B -> bool) (a : list A) (b : list B) : bool :=
+  match a, b with
+  | [], [] => true
+  | x :: a', y :: b' => f x y && all2 f a' b'
+  | _, _ => false
+  end.
+Fixpoint seqn (n : nat) (i : nat) : list nat := match n with O => [] | S k => i :: seqn k (S i) end.
+
+Definition judge_overlap (streams : list (list (N * list seg * N) * list seg)) (sched0 : list (N * N))
+           (obs : list (list seg * N * list seg * list N)) : N :=
+  let sched := map (fun x => (N.to_nat (fst x), N.to_nat (snd x))) sched0 in
+  (* every reader judged on ITS OWN stream and its own reads (model and spec of the single-reader case) *)
+  let vs := map (fun i =>
+              match nth_error streams i, nth_error obs i with
+              | Some st, Some (od, oe, os, ors) =>
+                  judge_demux (fst st) (snd st) (map N.of_nat (sizes_of i sched)) od oe os ors
+              | _, _ => 3
+              end) (seqn (length streams) 0) in
+  (* the model of the interleaved execution *)
+  let agree_sched :=
+    match run_sched (map (fun st => rd_init (wire_of st)) streams) sched with
+    | Ok rs => all2 (fun (r : rstate) (o : list seg * N * list seg * list N) => let '(od, oe, os, ors) := o in
+                           beq (rd_data r) (expand od) && (rerr_code (rd_err r) =? oe) &&
+                           beq (stderr_of (rd_s r)) (expand os)) rs obs
+    | Panic => false
+    end in
+  verdict (agree_sched && forallb (fun v => negb (N.odd v)) vs && Nat.eqb (length obs) (length streams))
+          (forallb (fun v => v <? 2) vs).
 
 Section Serve.
 Variables (cs : bool) (sv : server) (rules : list rule) (stat_tbl open_tbl : list (bytes * bool))
@@ -1054,7 +1213,25 @@ Definition spec_io (obs : sobs) : bool :=
   end.
 End Serve.
 
-Definition judge (c : case) : N :=
+(* the serve case: the rules the real setup produced are compared with the parser model and drive the
+   model of ServeHTTP; the SPEC is evaluated against what the configuration says (eff_rule: block
+   settings override the preset), never against what the setup made of it *)
+Definition judge_serve (cs : bool) (sv : server) (absroot : bytes) (cfgs : list rcfg) (rules : list rule)
+           (stat_tbl open_tbl : list (bytes * bool)) (q : request) (qbody : bytes) (rs : rscript) (obs : sobs) : N :=
+  let declared := map (eff_rule absroot) cfgs in
+  let known := forallb preset_known cfgs in
+  match obs with
+  | SSetupError =>
+      verdict (match parse_rules absroot cfgs with None => true | Some _ => false end)
+              (negb known)                 (* a configuration naming only known presets is accepted *)
+  | _ =>
+      verdict (match parse_rules absroot cfgs with Some rl => list_beq rule_beq rl rules | None => false end &&
+               serve_agree cs sv rules stat_tbl open_tbl q qbody rs obs)
+              (known && list_beq rule_beq declared rules &&
+               spec_dispatch cs declared stat_tbl open_tbl q obs && spec_io cs sv declared open_tbl q qbody rs obs)
+  end.
+
+Fixpoint judge (c : case) : N :=
   match c with
   | CWire ps hasbody body wire panicked => judge_wire ps hasbody body wire panicked
   | CDemux recs tail sizes od oe os ors => judge_demux recs tail sizes od oe os ors
@@ -1062,8 +1239,10 @@ Definition judge (c : case) : N :=
       (* Go's own net/http/fcgi responder as the peer: what it understood / what the client got
          back must equal what was sent (the comparison is the spec; there is no model part) *)
       verdict true (forallb (fun c => beq (expand (snd (fst c))) (expand (snd c))) checks)
-  | CServe cs sv rules stat_tbl open_tbl q qbody0 rs obs =>
-      let qbody := expand qbody0 in
-      verdict (serve_agree cs sv rules stat_tbl open_tbl q qbody rs obs)
-              (spec_dispatch cs rules stat_tbl open_tbl q obs && spec_io cs sv rules open_tbl q qbody rs obs)
+  | CServe cs sv absroot cfgs rules stat_tbl open_tbl q qbody0 rs obs =>
+      judge_serve cs sv absroot cfgs rules stat_tbl open_tbl q (expand qbody0) rs obs
+  | COverlap streams sched obs => judge_overlap streams sched obs
+  | CTogether l =>
+      (* every one of them is judged as if it had run alone: disagreement / violation of any of them *)
+      fold_right (fun c acc => N.lor (judge c) acc) 0 l
   end.
